@@ -8,6 +8,9 @@ import world as wd
 from checks import ikeprop
 
 
+DPD_SENTINEL = -12345.0
+
+
 def replay_storm(v, seeds, depth):
     """Beyond the bounded model: along seeded random schedules, EVERY datagram that was already delivered once is delivered
     again after every step.  Oracle (from the property statement): nothing changes; the answer is the byte-identical stored
@@ -33,10 +36,20 @@ def replay_storm(v, seeds, depth):
                     cached = bytes(getattr(sa, 'last_sent_response_data', b'') or b'') if sa is not None else None
                     expect_cached = sa is not None and not h['response'] and h['mid'] == sa.peer_msg_id - 1
                     runs0 = dict(getattr(w, 'exec_count', {}))
+                    # "dropped without effect" includes the liveness timer: a copy of an old message proves nothing fresh about the peer (RFC 7296 2.4).  The
+                    # timer is parked on a sentinel for the delivery and put back afterwards, so that the schedule itself is not disturbed
+                    saved_dpd = getattr(sa, 'start_dpd_at', None) if sa is not None else None
+                    if saved_dpd is not None:
+                        sa.start_dpd_at = DPD_SENTINEL
                     reply = w.dispatch(dst, data, src)
+                    dpd_moved = saved_dpd is not None and sa.start_dpd_at != DPD_SENTINEL
+                    if saved_dpd is not None and not dpd_moved:
+                        sa.start_dpd_at = saved_dpd
                     after = probes.world_snapshot(w)
                     n_redeliveries += 1
                     diff = probes.diff_snapshots(before, after)
+                    if dpd_moved and not expect_cached and not diff:
+                        diff = [f'{dst}.sas[{my.hex()}].start_dpd_at: the liveness timer was restarted']
                     if diff:
                         v.violation('a copy of an already processed datagram changed the endpoint', {'seed': seed, 'step': step, 'diff': diff,
                                     'datagram': {'xchg': h['xchg'], 'response': h['response'], 'mid': h['mid']}},
@@ -62,9 +75,15 @@ def replay_storm(v, seeds, depth):
                         for delta in (1, 5):
                             data = probes.seal(sa, W.INFORMATIONAL, False, peer.peer_msg_id + delta, [])
                             before = probes.world_snapshot(w)
+                            saved_dpd, peer.start_dpd_at = peer.start_dpd_at, DPD_SENTINEL
                             reply = w.dispatch(w.peer_of(e), data, e)
                             n_future += 1
+                            dpd_moved = peer.start_dpd_at != DPD_SENTINEL
+                            if not dpd_moved:
+                                peer.start_dpd_at = saved_dpd
                             diff = probes.diff_snapshots(before, probes.world_snapshot(w))
+                            if dpd_moved and not diff:
+                                diff = ['start_dpd_at: the liveness timer was restarted']
                             if diff or reply is not None:
                                 v.violation('an authentic request whose Message ID is not the next expected one had an effect',
                                             {'seed': seed, 'step': step, 'delta': delta, 'diff': diff, 'answered': reply is not None},
